@@ -1,5 +1,5 @@
 import EdpVerif.Impl.Decode
-import EdpVerif.Generated.Misc
+import EdpVerif.Generated.MiscC20
 /-
 Model of crates/edp_elixir_terms (range.rs, map_set.rs, date_time.rs, exceptions.rs, builders.rs) and of the
 proplist/map helpers of crates/erltf/src/term.rs (is_proplist, normalize_proplist, proplist_to_map,
